@@ -144,6 +144,8 @@ def struct_parts(I, term):
             out.append(("atom", k))
         elif I.cfg.get("rope") and z3.is_app(k) and k.decl().kind() == z3.Z3_OP_INT_TO_STR and rope_nonneg(I, k.arg(0)):
             out.append(("num", k))
+        elif I.cfg.get("rope") and z3.is_app(k) and k.decl().kind() == z3.Z3_OP_UNINTERPRETED:
+            out.append(("atom", k))       # any other string symbol / uninterpreted application: an opaque part
         else:
             return None
     return out
@@ -168,7 +170,11 @@ def part_len(I, p):
     if k == "lit":
         return len(v)
     if k == "atom":
-        return z3.Length(v)
+        fixed = I.ghost.get("rope_fixed_len", {}).get(v.get_id())
+        if fixed is None:
+            al = atom_alpha(I, v)
+            fixed = al[2] if len(al) > 2 else None
+        return fixed if fixed is not None else z3.Length(v)
     n = NUMLEN(v.arg(0))
     key = ("numlen", n.get_id())
     if key not in I.ghost.setdefault("rope_facts", set()):
@@ -271,7 +277,8 @@ def parts_term(parts):
 
 
 def atom_alpha(I, a):
-    return I.cfg["atoms"][str(a)]
+    r = (I.cfg.get("atoms") or {}).get(str(a))
+    return r if r is not None else (None, 0)
 
 
 def struct_split(I, parts, sep, maxsplit):
@@ -473,6 +480,13 @@ def str_method(I, s, name):
         if conc(a):
             return native(a, k)
         if a:
+            if name == "rstrip" and isinstance(a[0], (bytes, str)) and len(a[0]) == 1 and isinstance(s, SStr):
+                ch = a[0].decode("latin-1") if isinstance(a[0], bytes) else a[0]
+                if not I.path.branch(z3.SuffixOf(z3.StringVal(ch), me.term)):
+                    return s
+                r = z3.String(fresh_name("rstripped"))
+                I.path.fact(z3.And(z3.PrefixOf(r, me.term), z3.Length(r) < z3.Length(me.term), z3.Not(z3.SuffixOf(z3.StringVal(ch), r))), "str.rstrip(c) model")
+                return SStr(r, isb)
             raise Undecided("strip with explicit character set on symbolic string")
         sp = struct_parts(I, me.term)
         if sp is not None:
